@@ -106,7 +106,8 @@ def gen_resultset(rng, big=True, branch_only=True, root_files=True, abs_paths=Tr
 
 
 def make_case(rng, **kw):
-    return {"results": gen_resultset(rng, **kw), "types": TYPES, "precision": rng.choice([0, 1, 2, 2, 3, 4]), "branch": rng.random() < 0.8}
+    return {"results": gen_resultset(rng, **kw), "types": TYPES, "precision": rng.choice([0, 1, 2, 2, 3, 4]), "branch": rng.random() < 0.8,
+            "src_style": rng.choice([0, 0, 1, 2, 2])}
 
 
 def fixed_cases():
